@@ -25,7 +25,10 @@ CONSTANTS
   WriteErrKeepsEntry = FALSE
   AllowFire = FALSE
   FireRegisters = FALSE
+  RFault = TRUE
+  ReadErrEndsCalls = FALSE
+  LoopSurvivesClose = FALSE
   MaxTry = 3
-INVARIANTS TypeOK OwnTransaction FirstAcceptable ChanClosedOnlyAfterOwnDone NoNilDelivery PendingEntriesLive Capacity IdReusable CloseStopsLoop Deadline CtxPrompt ClosePrompt Schedule NoRespAtBudget
+INVARIANTS TypeOK OwnTransaction FirstAcceptable ChanClosedOnlyAfterOwnDone NoNilDelivery PendingEntriesLive Capacity IdReusable CloseStopsLoop Deadline CtxPrompt ClosePrompt Schedule NoRespAtBudget DoneOnlyByClose
 PROPERTIES NoTxAfterAccept
 CHECK_DEADLOCK FALSE
